@@ -270,7 +270,7 @@ func (w *world) roundTrip(cs Case, id string, sc *script) Obs {
 	var o Obs
 	method := rig.UnHex(cs.Req.Method)
 	msg, panicked := rig.Recover(func() {
-		resp, err := w.gw.RoundTrip(cs.Req.raw(id), method, 20*time.Second)
+		resp, err := w.gw.RoundTrip(cs.Req.raw(id), method, 60*time.Second)
 		if err != nil {
 			o.Err = err.Error()
 			return
